@@ -90,7 +90,7 @@ Proof.
   destruct (exec_e en e He d off len a (1 + fuel)%nat r m Hag Hce ltac:(lia) ltac:(lia)) as [r1 E1]. rewrite E1.
   set (m1 := after_e en a e m). set (ps := a + zlen (compile_e e)) in *.
   pose proof (agrees_after_e en a e m Hag) as Hag1. fold m1 in Hag1.
-  destruct Hag1 as (Hnm & Hlf & Hcs' & Hb & Hp & Hl).
+  destruct Hag1 as (Hnm & Hlf & Hcs' & Hb & Hp & Hl & _).
   assert (Hstk : m_stack m1 = [reify_e en a e]) by (subst m1; rewrite after_e_stack, Hst; reflexivity).
   assert (Hpr1 : c_props (m_ctx m1) = props) by (subst m1; destruct m as [? ? ?]; exact Hpr).
   assert (Hs : exists r', step d ps r1 m1 = Ok (ps + 2, r', after_s en props a (SSet t e) m)).
